@@ -221,16 +221,346 @@ def oracle_c17(spec, root, b, names, hist=None):
     return fails
 
 
+# ------------------------------------------------------------------------------------------ histories on ONE live tree
+# The property speaks about the tree AS IT IS when the settings are asked for.  A history interleaves lookups
+# (configuration(name) / task_with_config / __getitem__ + to_contexts / a Program run / an Executor run, through the
+# root and through intermediate collections) with `configure()` at every depth, `add_task` and `add_collection` of
+# new sub-trees at every depth; after every step the same oracle as above is evaluated against the spec tree that
+# has received the same operations.  A case = (initial tree, explicit list of steps): replayable without any rng.
+
+HOWS = ["configuration", "twc", "contexts", "program", "executor"]
+
+
+def addr_keys(spec, path):
+    """real binding keys (as the parent's `collections` holds them) along a path of child indices"""
+    keys, node = [], spec
+    for i in path:
+        ks = node["colls"][i]
+        keys.append(base.norm(base.eff_ad(node), base.kid_raw(ks)))
+        node = ks["node"]
+    return keys
+
+
+def gen_history(rng, spec, nsteps):
+    """explicit steps for `spec` (already methodsified and well-formed); works on a private copy of the spec only"""
+    spec = copy.deepcopy(spec)
+    root_ad = base.eff_ad(spec)
+    steps = []
+    serial = [0]
+
+    def nodes():
+        return [(n, list(p)) for n, p in base.spec_nodes(spec)]
+
+    def pick_node(deep_bias):
+        ns = nodes()
+        w = [(1 + len(p) * deep_bias) for _, p in ns]
+        return rng.choices(ns, weights=w)[0]
+
+    def look(path=None):
+        if path is None:
+            path = []
+        steps.append({"op": "look", "at": path, "how": rng.choice(HOWS), "pick": rng.randrange(1000),
+                      "tamper": rng.random() < 0.5})
+
+    # prime whatever the objects may remember: through the root, and through some intermediate collections
+    look([])
+    for n, p in nodes():
+        if p and n["colls"] and rng.random() < 0.5:
+            look(p)
+    if rng.random() < 0.5:
+        look([])
+    for _ in range(nsteps):
+        r = rng.random()
+        serial[0] += 1
+        k = serial[0]
+        if r < 0.55:
+            node, path = pick_node(2.0)
+            cfg = base.gen_cfg(rng, True)
+            if (("sec" in cfg and not isinstance(cfg["sec"], dict)) or isinstance(cfg.get("k1"), dict)) and rng.random() < 0.7:
+                cfg = base.gen_cfg(rng, True)  # dict-vs-leaf clashes put the paths below into the don't-care region: keep them rare
+            if not cfg:
+                cfg = {"sec": {"a": rng.randint(10, 99)}}
+            try:
+                base.ref_merge_into(copy.deepcopy(node["cfg"]), cfg)
+            except base.Clash:
+                continue  # configure() itself would raise AmbiguousMergeError half-way: not a state the property describes
+            base.ref_merge_into(node["cfg"], cfg)
+            steps.append({"op": "configure", "at": path, "cfg": cfg})
+        elif r < 0.78:
+            node, path = pick_node(1.5)
+            ts = {"fn": "late_task%d" % k, "tname": None, "own": ["late_alias%d" % k] if rng.random() < 0.5 else [],
+                  "bind": None, "extra": ["x_late%d" % k] if rng.random() < 0.4 else [], "default": None}
+            if rng.random() < 0.4 and base.default_target_local(node) is None:
+                ts["default"] = rng.choice(["add", "decl"])
+            node["tasks"].append(ts)
+            steps.append({"op": "add_task", "at": path, "task": copy.deepcopy(ts)})
+        else:
+            node, path = pick_node(1.0)
+            opts = {"mixed": False, "clash": False, "rich": True}
+            sub = None
+            for _try in range(6):
+                cand = base.methodsify(base.gen_node(rng, max(1, min(2, len(path) + 1)), root_ad, opts, name="late_sub%d" % k))
+                if base.has_tasks(cand) and base.well_formed(cand):
+                    sub = cand
+                    break
+            if sub is None:
+                continue
+            ks = {"node": sub, "bind": None, "default": False}
+            if rng.random() < 0.4 and base.default_target_local(node) is None and has_default(sub):
+                ks["default"] = True
+            node["colls"].append(ks)
+            steps.append({"op": "add_coll", "at": path, "kid": copy.deepcopy(ks)})
+        # look again: through the root (mostly), sometimes also through an ancestor of the place that changed
+        if rng.random() < 0.85:
+            look([])
+        if path and rng.random() < 0.35:
+            look(path[:rng.randrange(len(path))] if rng.random() < 0.6 else path)
+    look([])
+    return steps
+
+
+def has_default(node):
+    return any(t["default"] for t in node["tasks"]) or any(k["default"] and has_default(k["node"]) for k in node["colls"])
+
+
+def hist_features(spec, steps):
+    """what a history exercises: depth of every mutation that is followed by a lookup through a strict ancestor"""
+    f = []
+    for i, st in enumerate(steps):
+        if st["op"] == "look":
+            continue
+        later = [s for s in steps[i + 1:] if s["op"] == "look" and len(s["at"]) <= len(st["at"]) and st["at"][:len(s["at"])] == s["at"]]
+        if not later:
+            continue
+        gap = max(len(st["at"]) - len(s["at"]) for s in later)
+        f.append("%s_depth%d" % (st["op"], len(st["at"])))
+        f.append("%s_seen_from_%d_levels_up" % (st["op"], min(gap, 3)))
+    return f
+
+
+def check_look(spec, root, b, st, hist, lines=None):
+    """one lookup step through the collection at st['at'], judged against the spec AS IT IS NOW"""
+    fails = []
+    node, real = base.node_at(spec, root, st["at"])
+    where = "/".join(addr_keys(spec, st["at"])) or "<root>"
+    infos = base.expected_bindings(node, real, b)
+    want = {i["vid"]: expected_cfg(i) for i in infos}
+    by_vid = {i["vid"]: i for i in infos}
+    names = []
+    for i in infos:
+        for n in [i["primary"]] + i["aliases"] + i["shortcuts"]:
+            if n not in names:
+                names.append(n)
+    how = st["how"]
+    if how == "contexts":
+        try:
+            real.to_contexts()
+        except Exception:  # noqa  (type-inconsistent settings on some path: the lookups below decide)
+            pass
+    runs = 0
+    for idx, n in enumerate(names):
+        res, t, cfg = base.impl_lookup(real, n)
+        if lines is not None:
+            lines.append((st["at"], n, res))
+        if t is None:
+            hist["hist_dontcare_type_clash_on_path" if res == "ERR ambiguous" else "hist_name_unresolved(C10)"] += 1
+            continue
+        exp = want.get(t._vid)
+        if exp is None:
+            hist["hist_dontcare_type_clash_on_path"] += 1
+            continue
+        i = by_vid[t._vid]
+        got = cfg if how == "twc" else real.configuration(n)
+        hist["hist_config_checked"] += 1
+        hist["hist_config_checked_pathlen%d" % min(len(i["path_nodes"]), 4)] += 1
+        d = diff_path(got, exp)
+        if d is not None:
+            tp = "/".join(k for _, k in i["path_keys"]) or "<same collection>"
+            fails.append(("not-deep-merge", "asked through %s: %s(%r) (task #%d in %s) has %r at %s, the merge along the path "
+                          "of the tree as it is now (outer wins) has %r"
+                          % (where, "task_with_config" if how == "twc" else "configuration", n, t._vid, tp,
+                             get_path(got, d), ".".join(d), get_path(exp, d)), [n]))
+            continue
+        if how in ("program", "executor") and runs < 2 and (idx + st["pick"]) % max(1, len(names) // 2) == 0:
+            runs += 1
+            if how == "program":
+                _o, _e, log, exc = base.quiet_run(real, [n])
+            else:
+                log, exc = executor_run(real, n)
+            if len(log) == 1 and log[0][0] == t._vid:
+                seen = log[0][1]
+                expw = {k: v for k, v in exp.items() if k in base.WATCH_KEYS}
+                d = diff_path(seen, expw)
+                if d is not None:
+                    fails.append(("body-sees-other-settings", "asked through %s: run by %s as %r the task body sees %r at %s, the "
+                                  "merge along the path of the tree as it is now has %r"
+                                  % (where, how, n, get_path(seen, d), ".".join(d), get_path(expw, d)), [n]))
+                else:
+                    hist["hist_body_config_checked_" + how] += 1
+        if st["tamper"]:
+            mutate(got)
+            again = real.configuration(n)
+            if diff_path(again, exp) is not None:
+                fails.append(("mutation-leaks", "asked through %s: configuration(%r) differs after the mapping returned before "
+                              "was changed" % (where, n), [n]))
+            hist["hist_freshness_checked"] += 1
+    # whatever was handed out (and possibly changed by the caller): every collection still stores what was configured
+    for sn, sp in base.spec_nodes(node):
+        _, sreal = base.node_at(node, real, sp)
+        exp = base.eff_cfg(sn)
+        if exp is not None and diff_path(sreal.configuration(), exp) is not None:
+            fails.append(("stored-configuration-changed", "the collection at %s no longer stores what was configured: %r, expected %r"
+                          % ("/".join(addr_keys(node, sp)) or where, sreal.configuration(), exp), []))
+    return fails
+
+
+def executor_run(coll, name):
+    import contextlib
+    import io
+    from invoke import Config, Executor
+    del base.RUNLOG[:]
+    exc = None
+    try:
+        with contextlib.redirect_stdout(io.StringIO()), contextlib.redirect_stderr(io.StringIO()):
+            Executor(coll, config=Config()).execute(name)
+    except BaseException as e:  # noqa
+        exc = "%s: %s" % (type(e).__name__, e)
+    return list(base.RUNLOG), exc
+
+
+def apply_op(spec, root, b, st):
+    """the same operation on the spec tree and on the live tree"""
+    node, real = base.node_at(spec, root, st["at"])
+    if st["op"] == "configure":
+        base.ref_merge_into(node["cfg"], st["cfg"])
+        real.configure(copy.deepcopy(st["cfg"]))
+        return None
+    if st["op"] == "add_task":
+        ts = copy.deepcopy(st["task"])
+        t, vid = base.make_task(b, ts)
+        ts["_vid"] = vid
+        real.add_task(t, aliases=tuple(ts["extra"]) or None, default=True if ts["default"] == "add" else None)
+        node["tasks"].append(ts)
+        return None
+    if st["op"] == "add_coll":
+        ks = copy.deepcopy(st["kid"])
+        sub = base.build(ks["node"], b, is_root=False)
+        enc_sub = base.enc(sub) if base.encodable(sub) else None
+        real.add_collection(sub, name=ks["bind"], default=True if ks["default"] else None)
+        node["colls"].append(ks)
+        return enc_sub
+    raise ValueError(st["op"])
+
+
+def run_history(tree, steps, hist=None, want_model=False):
+    """-> (fails, index of the first failing step or None, model line or None, impl answers)"""
+    from collections import Counter
+    hist = hist if hist is not None else Counter()
+    spec, root, b = base.build_case(tree)
+    fails = []
+    enc0 = base.enc(root) if (want_model and base.encodable(root)) else None
+    msteps, answers = [], []
+    for k, st in enumerate(steps):
+        if st["op"] == "look":
+            looked = [] if enc0 is not None else None
+            found = check_look(spec, root, b, st, hist, looked)
+            hist["hist_looks"] += 1
+            if looked:
+                addr = ".".join(addr_keys(spec, st["at"]))
+                for at, n, res in sorted(looked, key=lambda x: -x[1].count("."))[:6]:
+                    msteps.append("l%s@%s" % (addr, n))
+                    answers.append(res)
+            if found:
+                return [(kind, "step %d: %s" % (k, why), inv) for kind, why, inv in found], k, None, None
+        else:
+            addr = ".".join(addr_keys(spec, st["at"]))
+            node = base.node_at(spec, root, st["at"])[0]
+            extra = apply_op(spec, root, b, st)
+            hist["hist_op_" + st["op"]] += 1
+            if st["op"] == "configure":
+                msteps.append("c%s@%s" % (addr, base.enc_val(st["cfg"])))
+            elif st["op"] == "add_task":
+                ts = st["task"]
+                msteps.append("t%s@%s:%d:%s:%d" % (addr, ts["bind"] or ts["tname"] or ts["fn"], node["tasks"][-1]["_vid"],
+                                                   ",".join(ts["own"] + ts["extra"]), 1 if ts["default"] else 0))
+            else:
+                if extra is None:
+                    enc0 = None
+                else:
+                    msteps.append("k%s@%s:%d:%s" % (addr, base.kid_raw(st["kid"]), 1 if st["kid"]["default"] else 0, extra))
+    line = None
+    if enc0 is not None and answers:
+        line = enc0 + "\tH" + "|".join(msteps)
+    return fails, None, line, answers
+
+
+def run_histories(ctx, out, lines, expect):
+    rng = ctx.rng
+    count = ctx.n(110, 1500)
+    done = 0
+    tries = 0
+    while done < count and tries < count * 6:
+        tries += 1
+        spec = base.strip(base.methodsify(base.gen_tree(rng, rich=True)))
+        if not base.well_formed(spec) or not spec["colls"]:
+            continue
+        if base.depth_of(spec) < 3 and rng.random() < 0.7:
+            continue  # mostly trees with a grandchild collection: that is where "an ancestor of an ancestor" exists
+        steps = gen_history(rng, spec, rng.randint(3, 7))
+        done += 1
+        case = {"tree": spec, "names": [], "history": {"kind": "ops", "steps": steps}}
+        feats = hist_features(spec, steps)
+        for f in set(feats):
+            out.hist["hist_" + f] += 1
+        out.hist["histories"] += 1
+        out.case(case, any(f.endswith("_levels_up") and not f.endswith("_0_levels_up") for f in feats))
+        try:
+            fails, at, line, answers = run_history(spec, steps, out.hist, want_model=ctx.model_ok)
+        except ValueError:
+            out.hist["hist_api_refused"] += 1
+            continue
+        except RecursionError:
+            continue
+        except Exception as e:  # noqa
+            fails, at, line, answers = [("unexpected-exception", "history raised %s: %s" % (type(e).__name__, e), [])], None, None, None
+        if line is not None:
+            lines.append(line)
+            expect.append((case, ["H"], ["|".join(answers)]))
+        seen = set()
+        for kind, why, involved in fails:
+            out.hist["fail_" + kind] += 1
+            if kind in seen:
+                continue
+            seen.add(kind)
+            short = dict(case, history={"kind": "ops", "steps": steps[:at + 1] if at is not None else steps},
+                         names=sorted(set(involved)), check=kind)
+            out.fail(short, "%s [history on one tree]: %s" % (kind, why))
+
+
 def run(ctx):
     out = Outcome()
     drv, lines, expect, nq = base.run_trees(ctx, out, True, oracle_c17, ctx.n(220, 3000), 200 if ctx.thorough else 90,
                                             nontrivial=lambda spec, feats: "shared_section_on_path" in feats)
+    run_histories(ctx, out, lines, expect)
     base.compare(ctx, out, drv, lines, expect)
     out.extra["queries"] = nq
     return out
 
 
 def replay(case):
+    if case.get("history"):
+        try:
+            fails, at, _, _ = run_history(case["tree"], case["history"]["steps"])
+        except ValueError as e:
+            return True, "the API refuses this tree (%s)" % e
+        except Exception as e:
+            return False, "unexpected-exception: history raised %s: %s" % (type(e).__name__, e)
+        kind = case.get("check")
+        if kind:
+            fails = [f for f in fails if f[0] == kind]
+        if fails:
+            return False, "; ".join("%s: %s" % (k, w) for k, w, _ in fails[:3])
+        return True, "ok (history of %d steps)" % len(case["history"]["steps"])
     try:
         spec, root, b = base.build_case(case["tree"])
     except ValueError as e:
